@@ -209,7 +209,7 @@ pub fn digest(ctx: &mut Ctx) {
         2 => large_kind::<Zbdd>(ctx),
         _ => {}
     }
-    let count = ctx.by_tier(24, 240);
+    let count = ctx.by_tier(24, 600);
     let steps = ctx.by_tier(200, 500);
     histories_kind::<Bdd>(ctx, count, steps);
     histories_kind::<Bcdd>(ctx, count, steps);
